@@ -135,10 +135,10 @@ Lemma exec_seq5 fe fuel a b c d e r st :
   exec ge fe fuel st (SSeq (SSeq a (SSeq b (SSeq c (SSeq d e)))) r).
 Proof.
   cbn [exec].
-  destruct (exec ge fe fuel st a) as [st1| |]; try reflexivity.
-  destruct (exec ge fe fuel st1 b) as [st2| |]; try reflexivity.
-  destruct (exec ge fe fuel st2 c) as [st3| |]; try reflexivity.
-  destruct (exec ge fe fuel st3 d) as [st4| |]; try reflexivity.
+  destruct (exec ge fe fuel st a) as [st1| | | |]; try reflexivity.
+  destruct (exec ge fe fuel st1 b) as [st2| | | |]; try reflexivity.
+  destruct (exec ge fe fuel st2 c) as [st3| | | |]; try reflexivity.
+  destruct (exec ge fe fuel st3 d) as [st4| | | |]; try reflexivity.
 Qed.
 
 Definition enc_parts : stmt * stmt * expr * stmt * stmt :=
